@@ -117,7 +117,8 @@ def main(argv=None):
     jobs = max(1, min(args.jobs, len(cfgs)))
     # real torch + both copies of the repository are imported once, single-threaded, before forking
     _init(pid, args.repo)
-    with ctx.Pool(jobs) as pool:
+    per_task = 1 if getattr(H, 'META', {}).get('fresh_process_per_config') else None
+    with ctx.Pool(jobs, maxtasksperchild=per_task) as pool:
         for d in pool.imap_unordered(_work, cfgs, chunksize=1):
             results.append(d)
 
